@@ -3,9 +3,9 @@ from __future__ import annotations
 
 import ast as _ast
 
-from ..common import nshow, outer_field, paths, visible_methods
+from ..common import nshow, outer_field, paths, visible_methods, typed_fields
 from ..effects import Effects, fmt_eff
-from ..expr import C, SELF, rowform, strip_epochs
+from ..expr import C, SELF, root_of, rowform, strip_epochs, walk
 from ..model import AnalysisError
 
 EXPL = ("Interprocedural write-effect (mod-set) analysis per concrete class: the effect set of every public query "
@@ -88,7 +88,7 @@ def check(prog, rep, tier):
             eff = E.of(cn, f)
             rep.analysed(f, cn, 0)
             if name in BINARY_OPS and not f.prop:
-                pw = [e for e in eff if e[0] == "param:second"]
+                pw = [e for e in eff if e[0] == "param:second" and not memo_effect(prog, cn, e)]
                 if pw:
                     rep.bad("C19.operand-untouched", f"{cn}.{name}", f"write second.{pw[0][1]}",
                             f"the non-receiver operand is written: {fmt_eff(pw[0])}", pw[0][3].split("@")[-1])
@@ -115,10 +115,22 @@ def check(prog, rep, tier):
             # export's target parameter is the purpose of the call
             if name in ("export", "export_c_header", "print"):
                 writes = [e for e in writes if not (e[0].startswith("param:") and e[2] == "io")]
+            memo_note = ""
+            if writes and all(e[0] == "self" and e[2] == "rebind" for e in writes):
+                # writes that are nothing but a sound one-entry memo leave the structure observably unchanged
+                sites = {e[3].split("@")[0] for e in writes}
+                gs = [m for c_ in prog.classes.values() for m in list(c_.methods.values()) if m.qualname in sites]
+                if gs and len(gs) == len(sites):
+                    verdicts = [memo_sound(prog, cn, g_) for g_ in gs]
+                    if all(v[0] for v in verdicts):
+                        writes = []
+                        memo_note = f" (memo in {sorted(sites)})"
+                    else:
+                        memo_note = "; not a sound memo: " + "; ".join(v[1] for v in verdicts if not v[0])
             if writes:
                 w = sorted(writes)[0]
                 rep.bad("C19.query-pure", f"{cn}.{name}", f"write {w[0]}.{w[1]} ({w[2]})",
-                        f"query has a write effect: {fmt_eff(w)}" + (f" (+{len(writes) - 1} more)" if len(writes) > 1 else ""),
+                        f"query has a write effect: {fmt_eff(w)}" + (f" (+{len(writes) - 1} more)" if len(writes) > 1 else "") + memo_note,
                         w[3].split("@")[-1])
             else:
                 rep.ok("C19.query-pure", f"{cn}.{name}")
@@ -136,7 +148,7 @@ def check(prog, rep, tier):
         for f in visible_methods(prog, cn):
             if f.src_name in STATE_MUTATORS and f.prop is None:
                 for e in E.of(cn, f):
-                    if e[0] == "self":
+                    if e[0] == "self" and not memo_effect(prog, cn, e):  # (a sound memo is not part of what the structure shows)
                         mutated.setdefault(e[1], (f, e))
         missing = [fld for fld in mutated if fld not in cleared_fields]
         if missing:
@@ -190,6 +202,154 @@ def check(prog, rep, tier):
                     rep.ok("C19.clear-initial", f"{cn}.clear: {fld} zeroed over its full range")
                 elif good is None:
                     rep.bad("C19.clear-initial", f"{cn}.clear", f"{fld} no zero store", f"no element store into {fld} found in clear()", clr.where())
+
+
+CONSTRUCTION = {"__init__", "_load", "_load_init", "_load_hex", "_parse_bytes", "_parse_footer", "_set_values", "__load", "frombytes", "_parse_blooms",
+                "_parse_buckets", "_parse_bucket", "__set_params", "_parse_bloom_array", "_set_error_rate", "init_error_rate", "load_error_rate"}
+_MEMO_CACHE = {}
+
+
+def _inputs(e):
+    return {n for n in walk(strip_epochs(e)) if n[0] == "p" or (n[0] == "f" and n[1] == SELF)}
+
+
+def memo_effect(prog, cn, eff) -> bool:
+    """is this write effect (root, field, kind, site) nothing but the update of a sound memo of the function at the site?"""
+    if eff[2] != "rebind":
+        return False
+    site = eff[3].split("@")[0]
+    gs = [m for c_ in prog.classes.values() for m in c_.methods.values() if m.qualname == site]
+    return bool(gs) and memo_sound(prog, gs[0].cls.name if gs[0].cls.name in [k.name for k in prog.cls(cn).mro()] else cn, gs[0])[0]
+
+
+def memo_sound(prog, cn, g):
+    """are the receiver-field writes of g nothing but a sound one-entry memo?  That is: the written fields are read nowhere but in g
+    (so they are not part of what the structure shows); a hit returns the remembered value only under `remembered key == K`; a miss
+    stores key := K and value := V, returns V, and everything V depends on is in K or can only be set while the structure is built.
+    Then calling g leaves the structure observably unchanged, now and for every later call."""
+    key = (id(prog), cn, g.qualname)
+    if key in _MEMO_CACHE:
+        return _MEMO_CACHE[key]
+    res = _memo_sound(prog, cn, g)
+    _MEMO_CACHE[key] = res
+    return res
+
+
+def _memo_sound(prog, cn, g):
+    import ast as _a
+    from ..expr import canon, mapx
+    from ..model import mangle
+    ps = [p for p in paths(prog, cn, g, inline="deep") if p.exit[0] == "return"]
+    written = set()
+    for p in ps:
+        for e in p.events:
+            if e.kind == "setelem" and root_of(e.cont) == SELF:
+                return False, "changes a container of the receiver"
+            if e.kind == "call" and e.d.get("mutates") and e.d.get("recv") is not None and root_of(e.recv) == SELF and not e.d.get("inlined"):
+                return False, "changes a container of the receiver"
+            if e.kind == "setfield" and e.base == SELF:
+                written.add(e.name)
+    if not written:
+        return False, "no memo fields"
+    mro = [k.name for k in prog.cls(cn).mro()]
+    # the memo fields are private to g: read nowhere else (other functions may only reset them)
+    for c in prog.classes.values():
+        if c.name not in mro:
+            continue
+        for f in list(c.methods.values()) + list(c.getters.values()) + list(c.setters.values()):
+            if f is g:
+                continue
+            for n in _a.walk(f.node):
+                if isinstance(n, _a.Attribute) and isinstance(n.ctx, _a.Load) and mangle(c.name, n.attr) in written:
+                    return False, f"{mangle(c.name, n.attr)} is also read in {f.qualname}"
+    # stable = receiver fields assigned only while the structure is built / loaded
+    unstable = set()
+    for c in prog.cls(cn).mro():
+        for f in list(c.methods.values()) + list(c.setters.values()):
+            if f.src_name in CONSTRUCTION or f is g:
+                continue
+            for n in _a.walk(f.node):
+                if isinstance(n, _a.Attribute) and isinstance(n.ctx, (_a.Store, _a.Del)) and isinstance(n.value, _a.Name) and n.value.id == "self":
+                    unstable.add(mangle(c.name, n.attr))
+
+    def comp(n):
+        """a memo component: a written field, or one position of a written field that holds a tuple"""
+        if n[0] == "f" and n[1] == SELF and n[2] in written:
+            return (n[2], None)
+        if n[0] == "sub" and n[1][0] == "f" and n[1][1] == SELF and n[1][2] in written and n[2][0] == "c" and isinstance(n[2][1], int):
+            return (n[1][2], n[2][1])
+        return None
+
+    def comps_in(e):
+        out, skip = set(), set()
+        for n in walk(e):
+            c = comp(n)
+            if c is not None and c[1] is not None:
+                out.add(c)
+                skip.add(n[1])
+        for n in walk(e):
+            c = comp(n)
+            if c is not None and c[1] is None and not any(k[0] == c[0] and k[1] is not None for k in out):
+                out.add(c)
+        return out
+
+    template = None  # (keyparts, returned expression, value components)
+    for p in ps:
+        if any(e.kind == "setfield" and e.base == SELF for e in p.events):
+            continue
+        rv = strip_epochs(p.exit[1])
+        R = comps_in(rv)
+        if not R:
+            continue  # neither writes nor uses the memo
+        keyparts = {}
+        for c in p.conds:
+            a = strip_epochs(c.atom)
+            if a[0] == "cmp" and ((a[1] == "==" and c.truth) or (a[1] == "!=" and not c.truth)):
+                for x, y in ((a[2], a[3]), (a[3], a[2])):
+                    k = comp(x)
+                    if k is not None and not comps_in(y):
+                        keyparts[k] = y
+        if not keyparts or set(keyparts) & R:
+            return False, "a remembered value is returned without comparing the remembered key"
+        if template is not None and template[0] != keyparts:
+            return False, "two different key tests"
+        template = (keyparts, rv, R)
+    if template is None:
+        return False, "no hit path (remembered value returned under a key test)"
+    keyparts, hit_rv, R = template
+    for p in ps:
+        wrote = {e.name for e in p.events if e.kind == "setfield" and e.base == SELF}
+        if not wrote:
+            continue
+
+        def stored(k):
+            v = p.fields.get((SELF, k[0]))
+            if v is None:
+                return None
+            v = strip_epochs(v)
+            if k[1] is None:
+                return v
+            return v[1][k[1]] if v[0] == "tup" and 0 <= k[1] < len(v[1]) else None
+        for k, want in keyparts.items():
+            if stored(k) is None or canon(stored(k)) != canon(want):
+                return False, "a miss does not store the key it will be compared with"
+        vals = {k: stored(k) for k in R}
+        if any(v is None for v in vals.values()):
+            return False, "a miss does not store the value a hit returns"
+
+        def subst(n):
+            k = comp(n)
+            return vals.get(k) if k in vals else None
+        if canon(mapx(hit_rv, subst)) != canon(strip_epochs(p.exit[1])):
+            return False, "a miss returns something other than what a hit on the stored entry returns"
+        have = set()
+        for want in keyparts.values():
+            have |= _inputs(want)
+        for v in vals.values():
+            loose = [n for n in _inputs(v) if n not in have and not (n[0] == "f" and (n[2] in written or n[2] not in unstable))]
+            if loose:
+                return False, f"the remembered value depends on {sorted(nshow(n) for n in loose)}, which the key does not include: a later call with the same key returns a stale value"
+    return True, ""
 
 
 def _init_values(prog, cn):
@@ -265,7 +425,9 @@ def _zero_block(prog, cn, fld, idx, value):
 def _full_range(prog, cn, fld, idx) -> bool:
     """idx is the element/index of a loop over exactly the allocation domain of self.<fld>"""
     if idx[0] == "ix" and outer_field(idx[2]) == fld and idx[2][0] == "f":
-        return True  # enumerate(self.F) / range(len(self.F))
+        # enumerate(self.F) / range(len(self.F)) - unless F is a file mapping in this context: the mapping is longer than the cells
+        # (it ends with the footer), so walking all of it overwrites the footer too
+        return "mmap" not in typed_fields(prog, cn).get(fld, set())
     if idx[0] not in ("it", "ix"):
         return False
     dom = idx[2]
